@@ -8,7 +8,7 @@
     values and TLC compares every result with spec/Values.tla (Judge_Values), so the oracle and the
     environment cannot drift apart silently;
  3. the deviation configs of the state-machine models must produce their counterexamples
-    (MC_C06.dev_drain -> ScopeOK, MC_C06.dev_stale -> CaptureOnlyOwn, MC_C08T.dev_unbounded -> NoOverflow)
+    (MC_C06.dev_drain -> ScopeOK, MC_C06.dev_stale -> CaptureOnlyOwn, MC_C06.dev_arrowparam -> ScopeOK, MC_C08T.dev_unbounded -> NoOverflow)
     and the liveness config must verify Termination.
 exit 0 iff everything behaves as stated; exit 2 otherwise (a self-test failure is a tool error, never a verdict)."""
 import copy
@@ -357,6 +357,7 @@ def model_configs(work, fails):
     n = 0
     for module, cfg, want in (("MC_C06", "MC_C06.dev_drain.cfg", "Invariant ScopeOK is violated"),
                               ("MC_C06", "MC_C06.dev_stale.cfg", "Invariant CaptureOnlyOwn is violated"),
+                              ("MC_C06", "MC_C06.dev_arrowparam.cfg", "Invariant ScopeOK is violated"),
                               ("MC_C08T", "MC_C08T.dev_unbounded.cfg", "Invariant NoOverflow is violated"),
                               ("MC_C08T", "MC_C08T.live.cfg", "Model checking completed. No error has been found")):
         res = P.run_tlc(module, cfg, work, heap="8g", timeout=900)
